@@ -120,6 +120,13 @@ func (ctx *BrokerContext) Broker() {
 			case <-time.After(time.Second * ProxyTimeout):
 				// This snowflake is no longer available to serve clients.
 				ctx.snowflakeLock.Lock()
+				if snowflake.index == -1 {
+					// A client claimed this snowflake just before the timeout and is
+					// about to send its offer; deliver it rather than strand both.
+					ctx.snowflakeLock.Unlock()
+					request.offerChannel <- <-snowflake.offerChannel
+					return
+				}
 				defer ctx.snowflakeLock.Unlock()
 				if snowflake.index != -1 {
 					if request.natType == NATUnrestricted {
